@@ -117,6 +117,8 @@ func c11Render(it ap.Item, sb *strings.Builder, leaks *[]string, path string) {
 // itself or for a struct embedded by pointer along the walked properties.  Lists are followed when the
 // written array (or the compacted single element) has one element per entry that is not nil-like; otherwise
 // that list is not judged.
+var c11Unpaired int
+
 func c11JSONLeaks(it ap.Item, raw json.RawMessage, path string, leaks *[]string) {
 	if it == nil || len(raw) == 0 {
 		return
@@ -124,8 +126,8 @@ func c11JSONLeaks(it ap.Item, raw json.RawMessage, path string, leaks *[]string)
 	list := func(c ap.ItemCollection) {
 		var kept []ap.Item
 		for _, e := range c {
-			if !ap.IsNil(e) {
-				kept = append(kept, e)
+			if !c18IsNil(e) && !(reflect.TypeOf(e).Kind() == reflect.String && (reflect.ValueOf(e).String() == "" || reflect.ValueOf(e).String() == "-")) {
+				kept = append(kept, e) // (nil-like entries - nil, typed nil pointer, empty IRI, "-" - are not written; judged without the library's IsNil)
 			}
 		}
 		if len(kept) == 1 {
@@ -134,6 +136,7 @@ func c11JSONLeaks(it ap.Item, raw json.RawMessage, path string, leaks *[]string)
 		}
 		var arr []json.RawMessage
 		if json.Unmarshal(raw, &arr) != nil || len(arr) != len(kept) {
+			c11Unpaired++ // the written list cannot be paired member by member with the value's list: not judged, counted
 			return
 		}
 		for i, e := range kept {
@@ -439,5 +442,6 @@ func runC11(seed int64, n int, tier string, outDir string) (*Report, error) {
 	}
 	rep.CaseFiles = []string{p, pB}
 	rep.CoqCases = cw.total + cwB.total
+	rep.Notes = append(rep.Notes, fmt.Sprintf("lists of the written document that could not be paired member by member with the value (not judged): %d", c11Unpaired))
 	return rep, nil
 }
